@@ -347,16 +347,25 @@ class Builder:
         else:
             src = "inputs"
         self.aliases.append((v, "alias-assign"))
+        tail: list[str] = []
+        if self.chance(35):
+            # a parameterless helper that would reset the alias but is never called: at run time the alias still
+            # is `inputs`, so later reads through it must stay in the dependency set (the assignment lives in the
+            # helper's own scope for the analysis; seed C31-3 analysed parameterless bodies in the enclosing scope)
+            self.feat.add("alias-reset-in-uncalled-fn")
+            fn = self.newvar("fn")
+            tail = [self.pick([f"function {fn}() {{ {v} = {self.n(9)}; }}",
+                               f"function {fn}() {{ var t{fn} = {self.n(9)}; {v} = t{fn}; return {v}; }}"])]
         k = self.n(3)
         if k == 0:
-            return [f"var {v};", f"{v} = {src};"]
+            return [f"var {v};", f"{v} = {src};"] + tail
         if k == 1:
-            return [f"var {v} = null;", f"{v} = {src};"]
+            return [f"var {v} = null;", f"{v} = {src};"] + tail
         if k == 2:
             self.feat.add("alias-assign-in-block")
-            return [f"var {v};", f"if (true) {{ {v} = {src}; }}"]
+            return [f"var {v};", f"if (true) {{ {v} = {src}; }}"] + tail
         self.feat.add("alias-assign-in-block")
-        return [f"var {v};", f"try {{ {v} = {src}; }} finally {{ }}"]
+        return [f"var {v};", f"try {{ {v} = {src}; }} finally {{ }}"] + tail
 
     def stmt_control(self, depth: int) -> list[str]:
         k = self.n(7)
